@@ -40,6 +40,7 @@ class Tr:
         self.inline = set(cfg.get('inline', []))
         self.spec = cfg.get('specialise', {})
         self.datasets = set()
+        self.datavecs = {}
         self.funcs = {n.name: n for n in ast.walk(tree) if isinstance(n, ast.FunctionDef)}
 
     def fresh(self, base):
@@ -100,8 +101,12 @@ class Tr:
         if isinstance(node, ast.Attribute):
             if isinstance(node.value, ast.Name) and node.value.id == 'self':
                 return {'var': 'self.' + node.attr}
-            if node.attr == 'domain' and isinstance(node.value, ast.Name) and ren.get(node.value.id) in self.datasets:
-                return {'var': ren[node.value.id] + '.domain'}
+            if node.attr in ('domain', 'records') and isinstance(node.value, ast.Name) and ren.get(node.value.id) in self.datasets:
+                return {'var': ren[node.value.id] + '.' + node.attr}
+            if node.attr in ('size', 'shape') and isinstance(node.value, ast.Name) and ren.get(node.value.id) in self.datavecs:
+                # the length of `X.project(P).datavector()` is the size of the (public) domain of P
+                dsname, pexpr = self.datavecs[ren[node.value.id]]
+                return {'call': 'domain_size', 'args': [{'var': dsname + '.domain'}, pexpr]}
             return {'call': 'attr:' + node.attr, 'args': [self.E(node.value, ren, bound)]}
         if isinstance(node, ast.IfExp):
             cv = self.const_value(node.test, ren)
@@ -247,7 +252,16 @@ class Tr:
             self.datasets.add(dst)
             return [{'assign': [dst, {'var': src}]}, {'assign': [dst + '.domain', {'var': src + '.domain'}]}]
         self.check_no_prim(value)
-        return self.assign_to(target, self.E(value, ren), ren)
+        out = self.assign_to(target, self.E(value, ren), ren)
+        if isinstance(target, ast.Name):
+            nm = ren[target.id]
+            self.datavecs.pop(nm, None)
+            v = value
+            if (isinstance(v, ast.Call) and isinstance(v.func, ast.Attribute) and v.func.attr == 'datavector' and isinstance(v.func.value, ast.Call)
+                    and isinstance(v.func.value.func, ast.Attribute) and v.func.value.func.attr == 'project'
+                    and isinstance(v.func.value.func.value, ast.Name) and ren.get(v.func.value.func.value.id) in self.datasets and len(v.func.value.args) == 1):
+                self.datavecs[nm] = (ren[v.func.value.func.value.id], self.E(v.func.value.args[0], ren))
+        return out
 
     def inline_call(self, target, call, ren):
         fn = self.funcs[uname(call.func)]
@@ -375,7 +389,8 @@ class Tr:
             return [{'ite': [self.E(s.test, ren), {'skip': True}, {'skip': True}]}]
         if isinstance(s, ast.FunctionDef):
             # nested helper: a closure over the locals it mentions
-            free = sorted({n.id for n in ast.walk(s) if isinstance(n, ast.Name) and ren.get(n.id) is not None})
+            own = {a.arg for a in s.args.args} | {n.id for n in ast.walk(s) if isinstance(n, ast.Name) and isinstance(n.ctx, ast.Store)}
+            free = sorted({n.id for n in ast.walk(s) if isinstance(n, ast.Name) and ren.get(n.id) is not None and n.id not in own})
             self.check_no_prim(s)
             nm = ren.setdefault(s.name, s.name)
             return [{'assign': [nm, {'call': 'closure', 'args': [{'var': ren[f]} for f in free]}]}]
@@ -532,3 +547,80 @@ def main():
 
 if __name__ == '__main__':
     sys.exit(main())
+
+
+# ---------------------------------------------------------------------------------------------
+# diagnostic mirror of PGM.Flow.flow (not trusted; only used to explain a rejection)
+def _lab(env, e):
+    if 'var' in e:
+        return env.get(e['var'], 'H')
+    if 'lit' in e:
+        return 'L'
+    return 'H' if any(_lab(env, a) == 'H' for a in e['args']) else 'L'
+
+
+def _join(a, b):
+    keys = set(a) | set(b)
+    return {k: ('L' if a.get(k, 'H') == 'L' and b.get(k, 'H') == 'L' else 'H') for k in keys}
+
+
+def explain(s, env, why):
+    if 'skip' in s:
+        return env
+    if 'assign' in s:
+        env = dict(env); env[s['assign'][0]] = _lab(env, s['assign'][1]); return env
+    if 'release' in s:
+        x, op, sc = s['release']
+        if _lab(env, sc) != 'L':
+            why.append(f'release {x}: scale is secret: {json.dumps(sc)[:300]}'); return None
+        env = dict(env); env[x] = 'L'; return env
+    if 'select' in s:
+        x, sc, ps = s['select']
+        bad = [p for p in ps if _lab(env, p) != 'L']
+        if bad:
+            why.append(f'select {x}: secret parameter {json.dumps(bad[0])[:300]}'); return None
+        env = dict(env); env[x] = 'L'; return env
+    if 'seq' in s:
+        e1 = explain(s['seq'][0], env, why)
+        return None if e1 is None else explain(s['seq'][1], e1, why)
+    if 'ite' in s:
+        c, a, b = s['ite']
+        if _lab(env, c) != 'L':
+            why.append(f'if: secret condition {json.dumps(c)[:300]}'); return None
+        ea, eb = explain(a, env, why), explain(b, env, why)
+        return None if ea is None or eb is None else _join(ea, eb)
+    if 'forIn' in s or 'while' in s:
+        if 'forIn' in s:
+            x, g, body = s['forIn']
+        else:
+            g, body = s['while']; x = None
+        for _ in range(200):
+            if _lab(env, g) != 'L':
+                why.append(f'loop: secret guard/iterable {json.dumps(g)[:300]}'); return None
+            e0 = dict(env)
+            if x:
+                e0[x] = 'L'
+            e1 = explain(body, e0, why)
+            if e1 is None:
+                return None
+            e2 = _join(env, e1)
+            if all(e2.get(k, 'H') == 'L' or env.get(k, 'H') == 'H' for k in set(e2) | set(env)):
+                return env
+            env = e2
+        why.append('loop: no fixpoint'); return None
+    if 'ret' in s:
+        if _lab(env, s['ret']) != 'L':
+            why.append(f'return: secret value {json.dumps(s["ret"])[:300]}'); return None
+        return env
+    raise ValueError(s)
+
+
+def explain_all(repo):
+    out = {}
+    for cfg in CONFIGS:
+        tr = Tr(ast.parse(open(os.path.join(repo, cfg['file'])).read()), cfg)
+        prog, env = tr.entry()
+        why = []
+        r = explain(prog, dict(env), why)
+        out[cfg['name']] = 'accepted' if r is not None else why
+    return out
